@@ -242,3 +242,73 @@ pub fn corr(ctx: &mut Ctx) {
     }
     ctx.write_stats(&st);
 }
+
+/// The layout change as the optimiser makes it (the interlace option, through the reductions' driver) - not only the
+/// two conversion functions called on their own: for every small size and every legal pixel size, a position-labelled
+/// image is sent through `optimize_from_memory` with everything but the layout change switched off and the output forced,
+/// in both directions; the output must be a well-formed file of the requested layout with every pixel where it was.
+pub fn oracle_e2e(ctx: &mut Ctx) {
+    use crate::e2e::*;
+    use crate::pngparse::{decode, pixels_of};
+    let mut rng = Rng::new(ctx.seed ^ 0x6E0);
+    let mut st = Stats::default();
+    let max = if ctx.tier_thorough { 20u32 } else { 9 };
+    let pairs: &[(u8, u8)] = &[(0, 1), (0, 2), (0, 4), (3, 1), (3, 2), (3, 4), (0, 8), (3, 8), (4, 8), (2, 8), (6, 8), (0, 16), (2, 16), (6, 16)];
+    for w in 1..=max {
+        for h in 1..=max {
+            for &(ct, depth) in pairs {
+                // thin out: every size for the sub-byte pixels and 8-bit gray, a third of the sizes for the others
+                if depth >= 8 && !(ct == 0 && depth == 8) && (w + 2 * h + ct as u32) % 3 != 0 { continue; }
+                for to_il in [true, false] {
+                    let (mut g, _) = crate::gen::gen_grid(&mut rng, ct, depth, w, h);
+                    // position labels: every pixel a value of its own as far as the depth allows
+                    let c = crate::img::channels(ct);
+                    let maxv: u32 = if ct == 3 { (g.palette.len().max(1) as u32) - 1 } else { (1u32 << depth) - 1 };
+                    for (i, px) in g.samples.chunks_mut(c).enumerate() {
+                        for (k, s) in px.iter_mut().enumerate() {
+                            *s = (((i as u32 + 1) * (k as u32 * 7 + 3)) % (maxv + 1)) as u16;
+                        }
+                    }
+                    g.trns = None;
+                    let img = g.pack(!to_il);
+                    let enc = crate::img::EncOpts::default();
+                    let input = img.encode_png(&mut rng, &enc);
+                    let mut opts = HOpts::from_preset(0);
+                    opts.interlace = Some(to_il as u8);
+                    opts.force = true;
+                    opts.bit_depth_reduction = false;
+                    opts.color_type_reduction = false;
+                    opts.palette_reduction = false;
+                    opts.grayscale_reduction = false;
+                    opts.idat_recoding = rng.chance(3, 4);
+                    let case = Case { img: img.clone(), class: format!("layout change {}x{} ct{} d{} to_interlaced={}", w, h, ct, depth, to_il), enc, input, opts };
+                    st.count("cases");
+                    st.count(if to_il { "to_adam7" } else { "to_progressive" });
+                    let out = run_case(&case.input, &case.opts);
+                    let bytes = match &out {
+                        Outcome::Ok(b) => b.clone(),
+                        Outcome::Err(e) => { st.fail("layout-change-e2e", format!("the call fails on a valid file ({}): {}", case.class, e), case.replay_json()); continue; }
+                        Outcome::Panic => { st.fail("layout-change-e2e", format!("the call panics ({})", case.class), case.replay_json()); continue; }
+                    };
+                    let (inp, dec) = match (decode(&case.input), decode(&bytes)) {
+                        (Ok(a), Ok(b)) => (a, b),
+                        (_, Err(e)) => { st.fail("layout-change-e2e", format!("output not decodable ({}): {}", case.class, e), case.replay_json()); continue; }
+                        _ => { st.count("generator_invalid_input"); continue; }
+                    };
+                    if !dec.violations.is_empty() {
+                        st.fail("layout-change-e2e", format!("output violates {:?} ({})", dec.violations, case.class), case.replay_json());
+                        continue;
+                    }
+                    if dec.img.il != to_il {
+                        st.fail("layout-change-e2e", format!("forced output has interlace {} ({})", dec.img.il as u8, case.class), case.replay_json());
+                        continue;
+                    }
+                    if pixels_of(&inp.img) != pixels_of(&dec.img) || (dec.img.w, dec.img.h) != (w, h) {
+                        st.fail("layout-change-e2e", format!("pixels moved or changed ({})", case.class), case.replay_json());
+                    }
+                }
+            }
+        }
+    }
+    ctx.write_stats(&st);
+}
